@@ -21,6 +21,7 @@ EXPLANATION = (
     "2*n_leaves-1 / 2*n_leaves, which equals those ids under the inductive invariant n_nodes = 2*n_leaves-1; (f) predict "
     "routes with the same comparator (<= threshold -> left child) and score is the objective of the predicted labels. "
     "Not decided: contiguity of the cluster labels, depth arithmetic beyond the guards.")
+ADOPT = [("C18", ["C18-d"], "predict reproduces the partition built by fit only if both compare the same floating-point values with the thresholds")]
 ASSUMPTIONS = ["np.argsort sorts ascending", "validated hyper-parameter domains (max_depth >= 1, min_samples_leaf >= 1)"]
 
 
@@ -109,8 +110,14 @@ def split_call_wiring(pm, ctx, ku, pu, fit):
         if role[1] is None:
             # feature subset: drawn from the seeded generator over the feature axis, without replacement
             ok = "random_state" in src and "X.shape[1]" in src and "replace=False" in src.replace(" ", "")
+            ch = [c_ for c_ in ast.walk(a) if isinstance(c_, ast.Call) and isinstance(c_.func, ast.Attribute) and c_.func.attr == "choice"]
             if ok:
                 ctx.ok("C09-g", site, role[0])
+            elif ch and "random_state" in src and not any(k.arg == "replace" for k in ch[0].keywords) and len(ch[0].args) < 3:
+                ctx.violation("C09-g", ku.relpath, "Kauri.fit", norm_src(ch[0])[:120], "the candidate features are drawn WITH replacement (numpy's default): some features are missing "
+                              "from the search even when max_features covers all of them, so the best admissible split can be missed", line=ch[0].lineno, site=site)
+            elif ch and any(k.arg == "replace" and isinstance(k.value, ast.Constant) and k.value.value is True for k in ch[0].keywords):
+                ctx.violation("C09-g", ku.relpath, "Kauri.fit", norm_src(ch[0])[:120], "the candidate features are drawn with replacement", line=ch[0].lineno, site=site)
             elif isinstance(a, (ast.Name, ast.Attribute)):
                 ctx.unrecognised("C09-g", site, f"feature subset given as {src}")
             else:
@@ -131,12 +138,25 @@ def run(pm, ctx):
     fit = ku.func("Kauri.fit")
     ctx.rule("C09-a", "a leaf enters the worklist only if it may be split: enough samples and depth left", floor=3)
     ctx.rule("C09-b", "the loop stops at max_leaves / empty worklist / non-positive gain", floor=2)
-    ctx.rule("C09-c", "both children of every evaluated split hold at least min_samples_leaf samples", floor=2)
+    ctx.rule("C09-c", "both children of every evaluated split hold at least min_samples_leaf samples", floor=3)
     ctx.rule("C09-d", "thresholds are observed feature values separating two different values", floor=2)
     ctx.rule("C09-e", "the array encoding of the tree stays consistent (2*leaves-1 nodes, ids of the children)", floor=8)
     ctx.rule("C09-f", "predict must route with the comparator used to build the partition; score is the objective of predict", floor=4)
 
     ctx.rule("C09-g", "every limit and every state matrix reaches the parameter of find_best_split that stands for it", floor=10)
+    # the root is a leaf too: data with fewer rows than min_samples_leaf must be rejected by the validation of fit
+    vcalls = [c_ for c_ in ast.walk(fit) if isinstance(c_, ast.Call) and (call_name(c_) or "").split(".")[-1] in ("validate_data", "check_array")]
+    site = "Kauri.fit: the root holds at least min_samples_leaf samples"
+    ems = [k.value for c_ in vcalls for k in c_.keywords if k.arg == "ensure_min_samples"]
+    if not vcalls:
+        ctx.unrecognised("C09-c", site, "no validation call in Kauri.fit")
+    elif any(attr_chain(e) == "self.min_samples_leaf" or norm_src(e) in ("max(self.min_samples_leaf, 1)", "max(1, self.min_samples_leaf)") for e in ems):
+        ctx.ok("C09-c", site, "ensure_min_samples=self.min_samples_leaf")
+    elif not ems:
+        ctx.violation("C09-c", ku.relpath, "Kauri.fit", norm_src(vcalls[-1])[:140], "no validation call of fit requires at least min_samples_leaf rows: a smaller data set yields a "
+                      "fitted tree whose only leaf is below the limit", line=vcalls[-1].lineno, site=site)
+    else:
+        ctx.unrecognised("C09-c", site, f"ensure_min_samples={norm_src(ems[0])}")
     split_call_wiring(pm, ctx, ku, pu, fit)
 
     # ------------------------------------------------------------------ a
@@ -568,4 +588,6 @@ def controls(pm, tier):
     mut(K, "X_left = X[:, self.features[node]] <= self.thresholds[node]", "X_left = X[:, self.features[node]] < self.thresholds[node]", "C09-f", "predict routes with <")
     mut(K, "        self.depths += [self.depths[father] + 1, self.depths[father] + 1]", "        self.depths += [self.depths[father], self.depths[father] + 1]", "C09-e", "left child keeps its father's depth")
     mut(K, "            node = min(max(node, 0), len(self.depths))", "            node = min(max(node, 0), len(self.depths) - 2)", "C09-e", "get_depth clamps the newest node away")
+    mut(K, "random_state.choice(X.shape[1], size=max_features, replace=False)", "random_state.choice(X.shape[1], size=max_features)", "C09-g", "candidate features drawn with replacement")
+    mut(K, "dtype=np.float64, ensure_min_samples=self.min_samples_leaf)", "dtype=np.float64)", "C09-c", "tiny data sets are no longer rejected")
     return out
